@@ -8,6 +8,7 @@ import (
 	"fmt"
 	"io"
 	"net/http"
+	"net/url"
 	"sort"
 	"strings"
 
@@ -61,11 +62,11 @@ func c13BodySchema() gen.S {
 		}}
 	}
 	return gen.S{"type": "object", "properties": gen.S{
-		"a":  str("A"),
-		"n":  gen.S{"type": "integer", "default": 5.0},
-		"m":  gen.S{"type": "integer"},
-		"o":  gen.S{"type": "object", "properties": gen.S{"x": gen.S{"type": "integer", "default": 1.0}, "y": gen.S{"type": "string"}}},
-		"od": gen.S{"type": "object", "default": gen.S{"y": "why"}, "properties": gen.S{"x": gen.S{"type": "integer", "default": 1.0}, "y": gen.S{"type": "string"}}},
+		"a":   str("A"),
+		"n":   gen.S{"type": "integer", "default": 5.0},
+		"m":   gen.S{"type": "integer"},
+		"o":   gen.S{"type": "object", "properties": gen.S{"x": gen.S{"type": "integer", "default": 1.0}, "y": gen.S{"type": "string"}}},
+		"od":  gen.S{"type": "object", "default": gen.S{"y": "why"}, "properties": gen.S{"x": gen.S{"type": "integer", "default": 1.0}, "y": gen.S{"type": "string"}}},
 		"arr": gen.S{"type": "array", "uniqueItems": true, "items": gen.S{"type": "object", "properties": gen.S{"k": str("K"), "v": gen.S{"type": "integer"}}}},
 		"one": gen.S{"oneOf": gen.Arr(branch("t1", "d1", "D1", "E1", false), branch("t2", "d2", "D2", "E2", true))},
 		"any": gen.S{"anyOf": gen.Arr(branch("u1", "g1", "G1", "H1", false), branch("u2", "g2", "G2", "H2", true))},
@@ -116,6 +117,9 @@ func c13Bodies() []c13body {
 		{"whitespace-json", "application/json", []byte("{ \"m\" : 4 ,\n  \"a\":\"x\" }")},
 		{"syntax-error", "application/json", []byte(`{"a":`)},
 		{"wrong-content-type", "text/plain", []byte("hello")},
+		{"form, defaulted field left out", "application/x-www-form-urlencoded", []byte("name=x")},
+		{"form, defaulted field sent", "application/x-www-form-urlencoded", []byte("name=x&lang=fr")},
+		{"form, violating", "application/x-www-form-urlencoded", []byte("lang=fr")},
 		{"no-body", "", nil},
 	}
 }
@@ -159,7 +163,8 @@ func c13Params(explode *bool) ([]c13param, []any, []any) {
 func c13Doc(explode *bool, bodySchema gen.S, secured bool) gen.S {
 	_, params, pathParams := c13Params(explode)
 	op := gen.S{"parameters": params, "responses": okResponses(),
-		"requestBody": gen.S{"content": gen.S{"application/json": gen.S{"schema": bodySchema}}}}
+		"requestBody": gen.S{"content": gen.S{"application/json": gen.S{"schema": bodySchema},
+			"application/x-www-form-urlencoded": gen.S{"schema": gen.S{"type": "object", "required": gen.Arr("name"), "properties": gen.S{"name": gen.S{"type": "string"}, "lang": gen.S{"type": "string", "default": "en"}}}}}}}
 	if secured {
 		op["security"] = gen.Arr(gen.S{"A": gen.Arr()}, gen.S{"B": gen.Arr()})
 	}
@@ -462,6 +467,20 @@ func c13Case(c *core.Ctx, router routers.Router, op *openapi3.Operation, params 
 			f := feat("body_differs_from_reference_merge")
 			f["body"] = b.name
 			c.Violate(f, mk(string(snap.body), gen.Canon(wantBody)), fmt.Sprintf("%s\nforwarded body: %s\nreference merge: %s", desc, core.Truncate(string(snap.body), 400), gen.Canon(wantBody)))
+		}
+	}
+	if strings.HasPrefix(b.ct, "application/x-www-form-urlencoded") && verr == nil && defaultsOn {
+		c.Cover("body_check", "form-default-forwarded")
+		fv, _ := url.ParseQuery(string(snap.body))
+		orig, _ := url.ParseQuery(string(b.raw))
+		want := orig.Get("lang")
+		if want == "" {
+			want = "en"
+		}
+		if got := fv["lang"]; len(got) != 1 || got[0] != want || fv.Get("name") != orig.Get("name") {
+			f := feat("form_body_default_not_forwarded")
+			f["body"] = "form"
+			c.Violate(f, mk(string(snap.body), "name="+orig.Get("name")+"&lang="+want), fmt.Sprintf("%s\nforwarded form body %q does not carry the default of the absent field lang", desc, snap.body))
 		}
 	}
 	if b.raw != nil {
